@@ -336,8 +336,16 @@ func RunScanDeps(pkgLoader PackageLoader, target string, opts models.ScanOptions
 				continue
 			}
 
-			for _, member := range ssaPkg.Members {
-				switch m := member.(type) {
+			// Members is a map: visit it in name order so that the alerts (and which of two
+			// equally ranked alerts is printed first) do not change from run to run.
+			memberNames := make([]string, 0, len(ssaPkg.Members))
+			for memberName := range ssaPkg.Members {
+				memberNames = append(memberNames, memberName)
+			}
+			sort.Strings(memberNames)
+
+			for _, memberName := range memberNames {
+				switch m := ssaPkg.Members[memberName].(type) {
 				case *ssa.Function:
 					if m == nil || len(m.Blocks) == 0 {
 						continue
